@@ -67,7 +67,7 @@ def select(prop, tier, only, seed):
     for h in registry.harnesses(prop):
         if only and only not in h["name"]:
             continue
-        if h.get("twin") or h["tier"] == "quick" or tier == "thorough" or only:
+        if h.get("twin") or h["tier"] == "quick" or (tier == "thorough" and h["tier"] == "thorough") or only:
             hs.append(h)
     # seed-rotated quick members: groups with "rotate" key take one member by seed in quick tier
     if tier == "quick" and not only:
